@@ -69,6 +69,10 @@ def decodePath (s : Sexp) : Option (List Nat) := do
   let xs ← s.list?
   allSome Sexp.nat? xs
 
+def decodeOp : Sexp → Option (List Nat × Bool × PyVal × String)
+  | .list [path, hv, v, .str r] => do pure (← decodePath path, ← hv.bool?, ← decodeVal v, r)
+  | _ => none
+
 def handle : Sexp → Option Sexp
   | .list [.atom "c16.pair", a, b] => do
       let a ← decode a
@@ -87,11 +91,11 @@ def handle : Sexp → Option Sexp
       let o' := unpickle h0 (pickle o)
       pure (.list [encode (erase o'), ofBool (cached o' == pyHash h0 a), ofBool (pyEq h0 (erase o') a),
                    ofBool (cached o == pyHash h0 a), ofBool (wf a)])
-  | .list [.atom "c16.assign", a, path, hv, v, .str r, fresh] => do
+  | .list [.atom "c16.assign", a, .list ops, fresh] => do
       let a ← decode a
       let fresh ← decode fresh
-      let path ← decodePath path
-      let o := assignAt h0 (← hv.bool?) (← decodeVal v) r path (build h0 a)
+      let ops ← allSome decodeOp ops
+      let o := ops.foldl (fun o (op : List Nat × Bool × PyVal × String) => assignAt h0 op.2.1 op.2.2.1 op.2.2.2 op.1 o) (build h0 a)
       pure (.list [encode (erase o), ofBool (pyEq h0 (erase o) fresh), ofBool (pyEq h0 fresh (erase o)),
                    ofBool (cached o == pyHash h0 fresh), ofBool (cached o == pyHash h0 a)])
   | _ => none
